@@ -213,6 +213,48 @@ CLAIMED["C18"] = dict(
     technique="Lean 4 proof (64-bit wrap-around arithmetic over regenerated guards; ledger spec) + fault enumeration + differential",
     design="§3 C18")
 
+CLAIMED["C04"] = dict(
+    text="Lean 4 theorems for any number of threads and contexts, any tree, registry order and schedule of the bind/cancel protocol modelled "
+         "exactly as coded (per-thread context lists with mutex and epoch, global epoch, registry mutex, the separate propagation mutex), "
+         "over two facts regenerated from the source (which mutexes the propagator holds; whether the binder's copy can clear a flag): at "
+         "quiescence every context bound beneath a cancelled one is cancelled, including those bound while the cancellation propagated; a "
+         "context is marked only if a cancel call won on it or an ancestor; one winner; sticky until reset. Closed negation witnesses show "
+         "the statement fails when either fact is false (the two defects that were repaired). Tie: E-SHIM on the whole instrumented "
+         "runtime, white-box bind/cancel/destroy programs whose context/epoch/mutex traces replay step by step on the model, natural nested "
+         "parallel_for runs, state-guided schedules that reproduce the defect windows deterministically.",
+    note="Trusted: Lean kernel, standard axioms, source extractor in checks/c04.py, E-SHIM runtime, harness/c04, sampled correspondence. "
+         "Sequentially consistent interleavings (the TSO side condition on the relaxed accesses of the binding fast path is not modelled); "
+         "thread registry fixed during a run; reach theorem excludes concurrent reset (API forbids it).",
+    technique="Lean 4 proof (inductive invariant over the epoch/list protocol, parameterised by regenerated lock facts) + E-SHIM trace replay",
+    design="§3 C04, §4 F2")
+CLAIMED["C10"] = dict(
+    text="Lean 4 theorems for any hash function, any number of threads/programs and every schedule of the hash-map machine (one step per lock "
+         "operation / access to mask and size): every linked node sits in the home bucket of its hash, keys unique, a split moves exactly the "
+         "keys of the new bit, a completed search inspected the key's home bucket (needs check_mask_race), the history appended at named "
+         "linearisation points is a legal sequential map history (one insert winner, one erase winner, find-after-insert), writer accessors "
+         "exclude all and const accessors exclude writers, an element is freed only by its unlinker after taking its lock as writer, one "
+         "grower at a time. Tie: generated constants, white-box differential of bucket/segment arithmetic, E-SHIM on the real "
+         "concurrent_hash_map with critical-section events replayed as enabled model transitions and the proof invariant evaluated on the "
+         "replayed states, independent per-key linearizability and holder monitors, random + bounded-preemption DFS.",
+    note="Trusted: Lean kernel, standard axioms, E-SHIM, harness/c10, sampled correspondence. Partial by design: bucket and element locks are "
+         "abstracted to the reader/writer specification proved for spin_rw_mutex in C08 (a critical section is one step).",
+    technique="Lean 4 proof (32-file inductive invariant + ghost-history linearizability) + E-SHIM event replay + linearizability monitor",
+    design="§3 C10")
+CLAIMED["C12"] = dict(
+    text="Lean 4 theorems for any number of threads and every schedule at atomic-access granularity: the insert-only CAS list is always sorted, "
+         "duplicate-free for unique containers and consists of exactly the successful inserts; one winner per key; find-after-insert; "
+         "traversals see everything present at their start exactly once in order; bit-reversal / split-order key facts (dummy < regular, "
+         "parent before child, elements stay reachable from their bucket through doublings); the bucket table is always valid; skip-list "
+         "levels are sorted CAS lists with level l+1 within level l (sub-sequence proved for unique containers, partial for multi) and a "
+         "search from any level finds the level-0 lower bound. Tie: generated constants and memory orders, exhaustive/boundary differential "
+         "of the bit arithmetic, E-SHIM lock-step replay of every next-pointer/bucket/height access of the 8 real containers, independent "
+         "monitors, random + DFS schedules.",
+    note="Trusted: Lean kernel, standard axioms, E-SHIM, harness/c12, sampled correspondence. skiplist_levels_sublists is _partial for multi "
+         "containers (checked on every replayed trace instead). Observations recorded, not claimed as violations: skip-list insert "
+         "busy-waits on max_height; count() of multi containers can over-report under concurrent inserts.",
+    technique="Lean 4 proof (CAS-list system invariants lifted to split-order and skip-list systems) + E-SHIM lock-step replay",
+    design="§3 C12")
+
 NOT_YET = "check not built yet in this round (planned: DESIGN.md §3); no claim is made"
 
 
